@@ -9,16 +9,18 @@
 // neighbours, by exact integer cross-multiplication (x = n / d * 2^e  =>  compare n * 2^e with (m * d) * 2^q in u128).
 // No float arithmetic, no call of the code under test.
 //
-// KNOWN FINDINGS on the unchanged tree (see the `_finding_` harnesses at the end, kind 'finding' = expected to FAIL):
+// KNOWN FINDING on the unchanged tree (witnessed by the `_finding_` harnesses at the end, kind 'finding' = expected to
+// FAIL):
 //  (R1) double rounding: the code first rounds x / 2^s (s = bitlen(num) - bitlen(den) - 24 resp. 53) to an integer Q'
 //       (nearest, ties to even) and then lets `encode` round Q' * 2^s to the float format.  Whenever Q' is *not* x / 2^s
 //       and Q' * 2^s sits exactly half-way between two neighbouring floats, `encode` breaks the tie without knowing on
 //       which side x was: (7 * 2^24 + 10) / 7 = 16777217.43 -> 16777216.0 instead of 16777218.0.
-//       Region `vk_rf_tie_region` (a predicate over the harness inputs only).
+//       Region `vk_rf_tie_region` (a predicate over the harness inputs only).  The main harnesses `assume` exactly this
+//       region away, so that every other violation still fails.
+// Out of reach of these harnesses (operands beyond 128 bits, see the stubs below); shown natively only:
+//       the same double rounding in the subnormal range ((2^24 * 7 + 1) / (7 * 2^174) = (0.5 + tiny) * 2^-149 -> 0.0),
 //  (R2) f64 only: the underflow cut-off `shift < -1074 - 53` forgets that the quotient can have 54 bits: every x with
 //       s == -1128 is flushed to 0.0 although 2^-1075 < x < 2^-1074 must round to 2^-1074 (3 / 2^1076 -> 0.0).
-//       Region `vk_rf_cutoff_region`.
-// The main harnesses `assume` exactly these regions away, so that every other violation still fails.
 use super::*;
 include!("/verif/kani/harness/shim.rs");
 
@@ -163,11 +165,6 @@ fn vk_rf_near(n: u128, d: u128, e: i32, s: i32, mid: u128, mq: i32) -> bool {
     c != 0 && ((lo > 0 && hi < 0) || ((lo == 0 || hi == 0) && k >= 1))
 }
 
-/// Known finding (R2), f64 only: s == -1074 - 54 and x > 2^-1075 (the code returns 0.0, the nearest f64 is 2^-1074).
-fn vk_rf_cutoff_region(n: u128, d: u128, e: i32) -> bool {
-    vk_rf_scale(n, d, e, 52) == -1074 - 54 && vk_rf_cmp(n, e, d, -1075) > 0
-}
-
 fn vk_rf_flat32(r: Approximation<f32, Sign>) -> (u64, bool, bool) {
     match r {
         Exact(f) => (f.to_bits() as u64, true, false),
@@ -185,29 +182,43 @@ fn vk_rf_flat64(r: Approximation<f64, Sign>) -> (u64, bool, bool) {
 /// The rational (-1)^neg * (n * 2^e1) / (d * 2^e2) as an (unreduced) `Repr`.
 fn vk_rf_repr(neg: bool, n: u64, e1: usize, d: u16, e2: usize) -> Repr {
     // (the concrete shifts are only applied when non-zero: no symbolic execution of the shift code otherwise)
-    let num = if e1 == 0 { IBig::from(n) } else { IBig::from(n) << e1 };
-    let den = if e2 == 0 { UBig::from(d) } else { UBig::from(d) << e2 };
+    let num = if e1 == 0 { IBig::from(n) } else { &IBig::from(n) << e1 };
+    let den = if e2 == 0 { UBig::from(d) } else { &UBig::from(d) << e2 };
     Repr {
         numerator: if neg { -num } else { num },
         denominator: den,
     }
 }
 
-// Stubs (Kani only) for the four dashu-int operations `to_f32`/`to_f64` call on their operands.  dashu-int is not the
-// code under test here (its shifts and divisions are the subject of C09/C02 units).  Each stub is the *inline-operand
-// arm of the real operation, verbatim* (`shift_ops::repr::shl_dword` first arm, `div_ops::repr::div_rem_dword`), with
-// every heap-operand arm replaced by a panic, i.e. by the proof obligation that the arm is unreachable for the inputs
-// of the harness (all operands and results < 2^128).  Why: the inline/heap tag and the shift amount of a shifted operand
-// are not constants for CBMC (they come from `leading_zeros` of symbolic data), so without the stubs it symbolically
-// executes the multi-word division (divide-and-conquer, Karatsuba, Toom-3: > 40 min in symex, never finished) and the
-// spilling shifts (allocations of symbolic size: > 13 GB, out of memory) although they are unreachable.
+// ------------------------------------------------------------------------------------------------------------
+// Stubs (Kani only) for the four dashu-int operations `to_f32`/`to_f64` apply to their operands.  dashu-int is not the
+// code under test here (its shifts and divisions belong to the C09/C02 units).  Each stub is the *inline-operand arm of
+// the real operation* (`shift_ops::repr::shl_dword` first arm; `div_ops::repr::div_rem_dword`), with every heap-operand
+// arm replaced by a panic, i.e. by the proof obligation that the arm is unreachable for the inputs of the harness (all
+// operands and results < 2^128).  Why: the inline/heap tag and the shift amount of a shifted operand are not constants
+// for CBMC (they come from `leading_zeros` of symbolic data), so without the stubs it symbolically executes the
+// multi-word division (divide-and-conquer, Karatsuba, Toom-3: > 40 min in symex, never finished) and the spilling shifts
+// (allocations of symbolic size: > 13 GB, out of memory) although they are unreachable.
 // Trusted: that these bodies are the inline arms of the real operations (read off integer/src/shift_ops.rs, div_ops.rs).
 #[cfg(kani)]
 fn vk_rf_stub_div_rem<'r>(lhs: UBig, rhs: &'r UBig) -> (UBig, UBig)
 where
     'r: 'r, // early-bound like the lifetime parameter of the impl (Kani compares the number of generics)
 {
-    let a: u64 = lhs.try_into().unwrap(); // an operand of more than one word fails the harness
+    let a: u128 = lhs.try_into().unwrap(); // a heap operand fails the harness
+    let b: u128 = rhs.try_into().unwrap();
+    match a.checked_div(b) {
+        Some(res) => (UBig::from(res), UBig::from(a % b)),
+        None => panic!(),
+    }
+}
+/// The same at word width (a 64-bit instead of a 128-bit divider circuit): an operand >= 2^64 fails the harness.
+#[cfg(kani)]
+fn vk_rf_stub_div_rem_word<'r>(lhs: UBig, rhs: &'r UBig) -> (UBig, UBig)
+where
+    'r: 'r,
+{
+    let a: u64 = lhs.try_into().unwrap();
     let b: u64 = rhs.try_into().unwrap();
     match a.checked_div(b) {
         Some(res) => (UBig::from(res), UBig::from(a % b)),
@@ -244,66 +255,309 @@ where
     IBig::from_parts(x.sign(), UBig::from(vk_rf_shl_inline(a, rhs)))
 }
 
+/// `$div` = vk_rf_stub_div_rem (dword) or vk_rf_stub_div_rem_word.  unwind(1): no loop may be entered at all.
+macro_rules! vk_rf_harness {
+    ($name:ident, $div:ident, $body:block) => {
+        #[cfg_attr(kani, kani::proof)]
+        #[cfg_attr(kani, kani::unwind(1))]
+        #[cfg_attr(kani, kani::stub(<UBig as DivRem<&UBig>>::div_rem, $div))]
+        #[cfg_attr(kani, kani::stub(<UBig as core::ops::Shl<usize>>::shl, vk_rf_stub_shl_ubig))]
+        #[cfg_attr(kani, kani::stub(<&UBig as core::ops::Shl<usize>>::shl, vk_rf_stub_shl_ubig_ref))]
+        #[cfg_attr(kani, kani::stub(<&IBig as core::ops::Shl<usize>>::shl, vk_rf_stub_shl_ibig_ref))]
+        #[cfg_attr(not(kani), test)]
+        fn $name() {
+            $body;
+            cover();
+        }
+    };
+}
+
+// ------------------------------------------------------------------------------------------------------------
+// checks
+
 /// Which part of the input space a harness looks at.
 #[derive(Clone, Copy, PartialEq)]
 enum VkRfMode {
-    /// outside the known-finding regions: the full property
+    /// outside the known-finding region (R1): the full property
     Main,
     /// inside (R1): the full property (expected to FAIL)
-    FindingTie,
-    /// inside (R2): the full property (expected to FAIL)
-    FindingCutoff,
+    Finding,
 }
 
 fn vk_rf_check32(mode: VkRfMode, neg: bool, n: u64, e1: usize, d: u16, e2: usize) {
-    assume(d != 0);
     let (nn, dd, e) = (n as u128, d as u128, e1 as i32 - e2 as i32);
     let (bits, exact, pos) = vk_rf_flat32(vk_rf_repr(neg, n, e1, d, e2).to_f32());
     let tie = n != 0 && vk_rf_tie_region(nn, dd, e, 23, 8, bits);
-    match mode {
-        VkRfMode::Main => assume(!tie),
-        _ => assume(tie),
-    }
+    assume(tie == (mode == VkRfMode::Finding));
     assert!(vk_rf_rne_ok(neg, nn, dd, e, 23, 8, bits, exact, pos));
 }
 
 fn vk_rf_check64(mode: VkRfMode, neg: bool, n: u64, e1: usize, d: u16, e2: usize) {
-    assume(d != 0);
     let (nn, dd, e) = (n as u128, d as u128, e1 as i32 - e2 as i32);
     let (bits, exact, pos) = vk_rf_flat64(vk_rf_repr(neg, n, e1, d, e2).to_f64());
     let tie = n != 0 && vk_rf_tie_region(nn, dd, e, 52, 11, bits);
-    let cut = n != 0 && vk_rf_cutoff_region(nn, dd, e);
-    match mode {
-        VkRfMode::Main => assume(!tie && !cut),
-        VkRfMode::FindingTie => assume(tie && !cut),
-        VkRfMode::FindingCutoff => assume(cut),
-    }
+    assume(tie == (mode == VkRfMode::Finding));
     assert!(vk_rf_rne_ok(neg, nn, dd, e, 52, 11, bits, exact, pos));
 }
 
 // ------------------------------------------------------------------------------------------------------------
-// normal range, everything inline (one DoubleWord): num = any u32 (either sign), den = any non-zero u8
+// inputs.  CBMC copes with about 14 symbolic bits here (a 32-bit symbolic numerator over the constant 7: > 15 min), so
+// the numerators are bit palettes: the bits that decide the rounding are symbolic, the rest is fixed.
+
+/// den = any of 1..=15
+fn vk_rf_den15() -> u16 {
+    let d: u8 = any();
+    assume(d >= 1 && d <= 15);
+    d as u16
+}
+
+/// "Critical" numerators for a quotient of `prec` or `prec + 1` bits: n = 2^t + hi * 2^(t-3) + lo with
+/// t = bitlen(d) + prec - 1 + (0 | 1), hi < 8 (the three bits below the top one), lo < 32: the quotient floor(x / 2^s)
+/// takes both lengths, both parities, and every remainder 0 <= r < d << max(s, 0) occurs; s in -1..=1.
+fn vk_rf_num_critical(d: u16, prec: u32) -> u64 {
+    let sel: u8 = any();
+    let lo: u8 = any();
+    assume(sel < 16 && lo < 32);
+    let t = (16 - d.leading_zeros()) + prec - 1 + (sel & 1) as u32;
+    (1u64 << t) | (((sel >> 1) as u64) << (t - 3)) | lo as u64
+}
+
+// f32 ----------------------------------------------------------------------------------------------------------
+
+vk_rf_harness!(vk_ratio_to_float_k_f32_critical, vk_rf_stub_div_rem_word, {
+    let d = vk_rf_den15();
+    let n = vk_rf_num_critical(d, 24);
+    vk_rf_check32(VkRfMode::Main, false, n, 0, d, 0);
+});
+
+// small numerators (the numerator is shifted up by 16..=27 bits), either sign, zero included
+vk_rf_harness!(vk_ratio_to_float_k_f32_small_num, vk_rf_stub_div_rem_word, {
+    let d = vk_rf_den15();
+    let n: u8 = any();
+    let neg: bool = any();
+    vk_rf_check32(VkRfMode::Main, neg, n as u64, 0, d, 0);
+});
+
+// big numerators (the denominator is shifted up by 35..=38 bits; the low numerator bits only matter as "sticky")
+vk_rf_harness!(vk_ratio_to_float_k_f32_big_num, vk_rf_stub_div_rem_word, {
+    let d = vk_rf_den15();
+    let sel: u8 = any();
+    let lo: u8 = any();
+    assume(sel < 8 && lo < 8);
+    // 2^62 + three bits below the top + three bits around the rounding position (bit 62 - 24 = 38) + three lowest bits
+    let mid: u8 = any();
+    assume(mid < 8);
+    let n: u64 = (1u64 << 62) | ((sel as u64) << 59) | ((mid as u64) << 37) | lo as u64;
+    vk_rf_check32(VkRfMode::Main, false, n, 0, d, 0);
+});
+
+// around the overflow threshold (2^25 - 1) * 2^103 (den = 1 is forced by num < 2^128): num = (2^25 - 1 - a) * 2^103
+// + six bits below, a < 4; both +-inf and the largest finite value come back
+vk_rf_harness!(vk_ratio_to_float_k_f32_overflow, vk_rf_stub_div_rem, {
+    let a: u8 = any();
+    let lo: u8 = any();
+    let neg: bool = any();
+    assume(a < 4 && lo < 64);
+    let n: u64 = ((((1u64 << 25) - 1) - a as u64) << 6) | lo as u64;
+    vk_rf_check32(VkRfMode::Main, neg, n, 97, 1, 0);
+});
+
+// f64 ----------------------------------------------------------------------------------------------------------
+
+vk_rf_harness!(vk_ratio_to_float_k_f64_critical, vk_rf_stub_div_rem_word, {
+    let d = vk_rf_den15();
+    let n = vk_rf_num_critical(d, 53);
+    vk_rf_check64(VkRfMode::Main, false, n, 0, d, 0);
+});
+
+vk_rf_harness!(vk_ratio_to_float_k_f64_small_num, vk_rf_stub_div_rem_word, {
+    let d = vk_rf_den15();
+    let n: u8 = any();
+    let neg: bool = any();
+    vk_rf_check64(VkRfMode::Main, neg, n as u64, 0, d, 0);
+});
+
+// num = 2^63 + ..., the denominator is shifted up by 7..=10 bits
+vk_rf_harness!(vk_ratio_to_float_k_f64_big_num, vk_rf_stub_div_rem_word, {
+    let d = vk_rf_den15();
+    let sel: u8 = any();
+    let lo: u16 = any();
+    assume(sel < 8 && lo < 4096);
+    let n: u64 = (1u64 << 63) | ((sel as u64) << 60) | lo as u64;
+    vk_rf_check64(VkRfMode::Main, false, n, 0, d, 0);
+});
+
+// ------------------------------------------------------------------------------------------------------------
+// kind 'finding': the property INSIDE region (R1).  Expected to FAIL on the unchanged tree (known finding: double rounding).
+
+vk_rf_harness!(vk_ratio_to_float_k_finding_f32_double_rounding, vk_rf_stub_div_rem_word, {
+    let d = vk_rf_den15();
+    let n = vk_rf_num_critical(d, 24);
+    vk_rf_check32(VkRfMode::Finding, false, n, 0, d, 0);
+});
+
+vk_rf_harness!(vk_ratio_to_float_k_finding_f64_double_rounding, vk_rf_stub_div_rem_word, {
+    let d = vk_rf_den15();
+    let n = vk_rf_num_critical(d, 53);
+    vk_rf_check64(VkRfMode::Finding, false, n, 0, d, 0);
+});
+
+// ============================================================================================================
+// TryFrom<Repr> for UBig / IBig (rational -> integer) and TryFrom<RBig> for f32 / f64 (lossless only).
+// C06: the conversion succeeds only with exactly the source value, otherwise it returns an error (it never panics);
+// converting an integer / a float into a rational and back yields the original, so it must succeed whenever the target
+// can hold the value.  No stubs here (no division, only concrete shifts).
+//
+// KNOWN FINDINGS on the unchanged tree ('finding' harnesses, expected to FAIL):
+//  (R3) `TryFrom<Repr> for UBig` tests `numerator.is_one()` where it means `denominator.is_one()`:
+//       5 -> Err(LossOfPrecision), 0 -> Err(LossOfPrecision), 1/2 -> Ok(1).  Right only for negative values, for 1 and for
+//       non-integers with numerator > 1.
+//  (R4) `TryFrom<RBig> for f32/f64` does `numerator.try_into().unwrap()` into i32 / i64 after a bound check on the *top
+//       bit* only: every numerator that does not fit the mantissa type panics (2^31 -> panic although it is an f32;
+//       2^31 + 1 -> panic instead of Err(LossOfPrecision)).
+
+/// den > 1 implies that n / den is not an integer (|n| < 2^15: a 16-bit remainder circuit)
+fn vk_rf_int_inputs() -> (i16, u8) {
+    let n: i16 = any();
+    let d: u8 = any();
+    assume(n != i16::MIN && d >= 1 && d <= 15);
+    assume(d == 1 || n % (d as i16) != 0);
+    (n, d)
+}
+
+fn vk_rf_r3_region(n: i16, d: u8) -> bool {
+    n == 0 || (n == 1 && d > 1) || (n > 1 && d == 1)
+}
+
+fn vk_rf_check_to_ubig(n: i16, d: u8) {
+    let r = Repr { numerator: IBig::from(n), denominator: UBig::from(d) };
+    match UBig::try_from(r) {
+        Ok(v) => assert!(d == 1 && n >= 0 && v == UBig::from(n.unsigned_abs())),
+        Err(ConversionError::OutOfBounds) => assert!(n < 0),
+        Err(ConversionError::LossOfPrecision) => assert!(d != 1),
+    }
+}
 
 #[cfg_attr(kani, kani::proof)]
-#[cfg_attr(kani, kani::unwind(1))]
+#[cfg_attr(kani, kani::unwind(3))]
 #[cfg_attr(not(kani), test)]
-fn vk_ratio_to_float_k_f32_u32_u8() {
-    let n: u32 = any();
-    let d: u8 = any();
-    vk_rf_check32(VkRfMode::Main, false, n as u64, 0, d as u16, 0);
+fn vk_ratio_to_float_k_to_ubig() {
+    let (n, d) = vk_rf_int_inputs();
+    assume(!vk_rf_r3_region(n, d));
+    vk_rf_check_to_ubig(n, d);
     cover();
 }
 
 #[cfg_attr(kani, kani::proof)]
-#[cfg_attr(kani, kani::unwind(1))]
-#[cfg_attr(kani, kani::stub(<UBig as DivRem<&UBig>>::div_rem, vk_rf_stub_div_rem))]
-#[cfg_attr(kani, kani::stub(<UBig as core::ops::Shl<usize>>::shl, vk_rf_stub_shl_ubig))]
-#[cfg_attr(kani, kani::stub(<&UBig as core::ops::Shl<usize>>::shl, vk_rf_stub_shl_ubig_ref))]
-#[cfg_attr(kani, kani::stub(<&IBig as core::ops::Shl<usize>>::shl, vk_rf_stub_shl_ibig_ref))]
+#[cfg_attr(kani, kani::unwind(3))]
 #[cfg_attr(not(kani), test)]
-fn vk_ratio_to_float_k_probe_u16() {
-    let n: u32 = any();
-    vk_rf_check32(VkRfMode::Main, false, n as u64, 0, 7, 0);
+fn vk_ratio_to_float_k_to_ibig() {
+    let (n, d) = vk_rf_int_inputs();
+    let r = Repr { numerator: IBig::from(n), denominator: UBig::from(d) };
+    match IBig::try_from(r) {
+        Ok(v) => assert!(d == 1 && v == IBig::from(n)),
+        Err(e) => assert!(d != 1 && e == ConversionError::LossOfPrecision),
+    }
+    cover();
+}
+
+/// kind 'finding' (R3): expected to FAIL
+#[cfg_attr(kani, kani::proof)]
+#[cfg_attr(kani, kani::unwind(3))]
+#[cfg_attr(not(kani), test)]
+fn vk_ratio_to_float_k_finding_to_ubig() {
+    let (n, d) = vk_rf_int_inputs();
+    assume(vk_rf_r3_region(n, d));
+    vk_rf_check_to_ubig(n, d);
+    cover();
+}
+
+/// "(-1)^neg * a / 2^k (a odd or k == 0, a != 0) is a value of the IEEE format with `p` fraction / `w` exponent bits":
+/// a = a' * 2^tz with a' odd; the value is a' * 2^(tz - k); it needs bitlen(a') <= p + 1 significant bits, a lowest bit
+/// at position >= emin - p and a top bit at position <= emax.
+fn vk_rf_representable(a: u128, k: i32, p: u32, w: u32) -> bool {
+    let bias: i32 = (1i32 << (w - 1)) - 1;
+    let tz = a.trailing_zeros() as i32;
+    let len = vk_rf_bitlen(a) - tz;
+    let e = tz - k;
+    len <= p as i32 + 1 && e >= 1 - bias - p as i32 && len + e <= bias + 1
+}
+
+/// `r` is what a lossless conversion of x = (-1)^neg * a / 2^k into the format must return.
+fn vk_rf_lossless_ok(neg: bool, a: u128, k: i32, p: u32, w: u32, r: Result<u64, ConversionError>) -> bool {
+    if a == 0 {
+        return r == Ok(0);
+    }
+    match r {
+        Ok(bits) => {
+            // an exactly rounded result with the `Exact` flag is the value itself
+            vk_rf_representable(a, k, p, w) && vk_rf_rne_ok(neg, a, 1, -k, p, w, bits, true, false)
+        }
+        Err(_) => !vk_rf_representable(a, k, p, w),
+    }
+}
+
+fn vk_rf_check_try_f32(n: i64, k: usize) {
+    assume(n != i64::MIN && (k == 0 || n % 2 != 0)); // canonical: reduced
+    let r = RBig(Repr { numerator: IBig::from(n), denominator: UBig::ONE << k });
+    let res = f32::try_from(r).map(|f| f.to_bits() as u64);
+    assert!(vk_rf_lossless_ok(n < 0, n.unsigned_abs() as u128, k as i32, 23, 8, res));
+}
+
+fn vk_rf_check_try_f64(n: i128, k: usize) {
+    assume(n != i128::MIN && n.unsigned_abs() < (1u128 << 64) && (k == 0 || n % 2 != 0));
+    let r = RBig(Repr { numerator: IBig::from(n), denominator: UBig::ONE << k });
+    let res = f64::try_from(r).map(|f| f.to_bits());
+    assert!(vk_rf_lossless_ok(n < 0, n.unsigned_abs(), k as i32, 52, 11, res));
+}
+
+// numerators that fit the mantissa type (i32 / i64), denominators 2^k for a palette of k reaching down to the subnormals
+#[cfg_attr(kani, kani::proof)]
+#[cfg_attr(kani, kani::unwind(20))]
+#[cfg_attr(not(kani), test)]
+fn vk_ratio_to_float_k_try_f32() {
+    let n: i32 = any();
+    vk_rf_check_try_f32(n as i64, 0);
+    vk_rf_check_try_f32(n as i64, 1);
+    vk_rf_check_try_f32(n as i64, 126);
+    vk_rf_check_try_f32(n as i64, 149);
+    vk_rf_check_try_f32(n as i64, 150);
+    vk_rf_check_try_f32(n as i64, 181);
+    cover();
+}
+
+#[cfg_attr(kani, kani::proof)]
+#[cfg_attr(kani, kani::unwind(20))]
+#[cfg_attr(not(kani), test)]
+fn vk_ratio_to_float_k_try_f64() {
+    let n: i64 = any();
+    vk_rf_check_try_f64(n as i128, 0);
+    vk_rf_check_try_f64(n as i128, 1);
+    vk_rf_check_try_f64(n as i128, 64);
+    vk_rf_check_try_f64(n as i128, 1074);
+    vk_rf_check_try_f64(n as i128, 1075);
+    cover();
+}
+
+/// kind 'finding' (R4): numerators beyond i32, expected to FAIL (panic in `unwrap`)
+#[cfg_attr(kani, kani::proof)]
+#[cfg_attr(kani, kani::unwind(20))]
+#[cfg_attr(not(kani), test)]
+fn vk_ratio_to_float_k_finding_try_f32_wide_num() {
+    let n: i64 = any();
+    assume(n < i32::MIN as i64 || n > i32::MAX as i64);
+    vk_rf_check_try_f32(n, 0);
+    cover();
+}
+
+/// kind 'finding' (R4): numerators beyond i64 (|n| < 2^64), expected to FAIL (panic in `unwrap`)
+#[cfg_attr(kani, kani::proof)]
+#[cfg_attr(kani, kani::unwind(20))]
+#[cfg_attr(not(kani), test)]
+fn vk_ratio_to_float_k_finding_try_f64_wide_num() {
+    let n: i128 = any();
+    assume(n < i64::MIN as i128 || n > i64::MAX as i128);
+    vk_rf_check_try_f64(n, 0);
     cover();
 }
 
@@ -387,7 +641,7 @@ fn vk_rf_selftest_tmp() {
         let (bits, exact, pos) = vk_rf_flat64(r.to_f64());
         let ok = vk_rf_rne_ok(neg, nn, dd, e, 52, 11, bits, exact, pos);
         let tie = n != 0 && vk_rf_tie_region(nn, dd, e, 52, 11, bits);
-        let cut = n != 0 && vk_rf_cutoff_region(nn, dd, e);
+        let cut = n != 0 && vk_rf_scale(nn, dd, e, 52) == -1128 && vk_rf_cmp(nn, e, dd, -1075) > 0;
         in64 += (tie || cut) as u64;
         if !ok {
             fail64 += 1;
